@@ -64,7 +64,11 @@ def gen_descs(g, tier):
                 out.append(gen_case(g, kind, Dx, Dy, Dk, R=(2 if Dx < 3 and (Dx + Dy + Dk) % 2 else 1)))
     for _ in range(0 if q else 200):
         kind = g.choice(KINDS); Dy = g.randint(1, 2)
-        out.append(gen_case(g, kind, g.randint(1, 3), Dy, g.randint(1, 2), R=g.randint(1, 2), Da=Dy + g.randint(0, 1)))
+        Da = Dy + g.randint(0, 1)
+        Dk = g.randint(1, 2)
+        if kind not in ("lrbf", "lsem"):
+            Dk = min(Dk, Da)        # the constructor accepts at most Da noise units
+        out.append(gen_case(g, kind, g.randint(1, 3), Dy, Dk, R=g.randint(1, 2), Da=Da))
     return [C.J(d) for d in out]
 
 
@@ -101,7 +105,7 @@ def fr(a):
 
 
 # ------------------------------------------------------------------ quadrature oracle
-def gh_nodes(mu, S, n=60):
+def gh_nodes(mu, S, n=60, extra=None):
     """quadrature nodes / weights for N(mu, S): D = 1 Gauss-Hermite (smooth integrands only); D >= 2 a composite
     Gauss-Legendre tensor rule in whitened coordinates on [-8, 8]^D (resolves bumps much narrower than p(x))"""
     import numpy as np
@@ -113,11 +117,18 @@ def gh_nodes(mu, S, n=60):
         return (mu[None] + (L @ z[None]).T), w
     nsub, order = (32, 12) if D == 2 else (10, 6)
     zz, ww = np.polynomial.legendre.leggauss(order)
-    edges = np.linspace(-8.0, 8.0, nsub + 1)
-    z1 = np.concatenate([0.5 * (b - a) * zz + 0.5 * (a + b) for a, b in zip(edges[:-1], edges[1:])])
-    w1 = np.concatenate([0.5 * (b - a) * ww for a, b in zip(edges[:-1], edges[1:])]) * np.exp(-0.5 * z1 ** 2) / math.sqrt(2 * math.pi)
-    Z = np.stack(np.meshgrid(*([z1] * D), indexing="ij"), axis=-1).reshape(-1, D)
-    Wt = np.prod(np.stack(np.meshgrid(*([w1] * D), indexing="ij"), axis=-1).reshape(-1, D), axis=1)
+    # exponentially growing integrands exp(+-w'x) move the mass by L'w in whitened coordinates: widen the box by
+    # that much per coordinate (extra) and keep the panel width
+    z1s, w1s = [], []
+    for i in range(D):
+        hw = 8.0 + (float(extra[i]) if extra is not None else 0.0)
+        ns = int(math.ceil(nsub * hw / 8.0))
+        edges = np.linspace(-hw, hw, ns + 1)
+        z1 = np.concatenate([0.5 * (b - a) * zz + 0.5 * (a + b) for a, b in zip(edges[:-1], edges[1:])])
+        w1 = np.concatenate([0.5 * (b - a) * ww for a, b in zip(edges[:-1], edges[1:])]) * np.exp(-0.5 * z1 ** 2) / math.sqrt(2 * math.pi)
+        z1s.append(z1); w1s.append(w1)
+    Z = np.stack(np.meshgrid(*z1s, indexing="ij"), axis=-1).reshape(-1, D)
+    Wt = np.prod(np.stack(np.meshgrid(*w1s, indexing="ij"), axis=-1).reshape(-1, D), axis=1)
     return mu[None] + Z @ L.T, Wt
 
 
@@ -151,7 +162,11 @@ def quad_moments(d, c, r):
         kinks = [] if smooth else [float(-row[0] / row[1]) for row in d["W"] if row[1] != 0]
         X, w = gl_nodes_1d(mu[0], math.sqrt(S[0, 0]), kinks)
     elif smooth and Dx == 2:
-        X, w = gh_nodes(mu, S, 110)
+        extra = None
+        if d["kind"] in ("exp", "coshm1"):
+            Lc = np.linalg.cholesky(S)
+            extra = np.max(np.abs(np.array([Lc.T @ gtlib.fl(row[1:]) for row in d["W"]])), axis=0)
+        X, w = gh_nodes(mu, S, 110, extra=extra)
     else:
         return None
     m, Sg = cond_moments_at(c, X)
